@@ -38,7 +38,7 @@ def code_table(F):
     b = F.body(ERR + "::code")
     m = None
     for mm in hirq.matches(b["hir"]):
-        if len(mm["arms"]) > 40:
+        if hirq.n_alts(mm) > 40:
             m = mm
     if m is None:
         raise AnchorMissing("Error::code match not found")
